@@ -373,7 +373,10 @@ impl Emf {
     /// contents. It's recommended to only enable all validations in debug builds. This is exactly what
     /// [`Emf::builder`] does.
     pub fn all_validations(namespace: String, default_dimensions: Vec<Vec<String>>) -> Self {
-        Self::builder(namespace, default_dimensions).build()
+        let mut builder = Self::builder(namespace, default_dimensions);
+        // the builder's default depends on debug assertions, this constructor always validates
+        builder.validation = Validation::default();
+        builder.build()
     }
 
     /// Turn off all optional validations for the Emf format
